@@ -116,16 +116,12 @@ func halfPipe(src net.Conn, dst net.Conn,
 		errConnClose := c.Close()
 		if eg := generalizeErr(errConnClose); eg != nil {
 			if errors.Is(eg, errConnTimeout) {
-				stats.CovertConnErr = eg.Error()
-				stats.ClientConnErr = eg.Error()
+				stats.setConnErr(eg.Error(), true, true)
+				stats.setConnErr(eg.Error(), false, true)
 			} else if isUpload == isSrc { // !(isUpload xor isSource) => connection to covert
-				if stats.CovertConnErr == "" {
-					stats.CovertConnErr = eg.Error()
-				}
+				stats.setConnErr(eg.Error(), true, false)
 			} else { // isUpload xor isSource => connection to client
-				if stats.ClientConnErr == "" {
-					stats.ClientConnErr = eg.Error()
-				}
+				stats.setConnErr(eg.Error(), false, false)
 			}
 		}
 	}
@@ -201,11 +197,7 @@ func halfPipe(src net.Conn, dst net.Conn,
 
 			if ew != nil {
 				if e := generalizeErr(ew); e != nil {
-					if isUpload {
-						stats.CovertConnErr = e.Error()
-					} else {
-						stats.ClientConnErr = e.Error()
-					}
+					stats.setConnErr(e.Error(), isUpload, true)
 				}
 				break
 			}
@@ -214,11 +206,7 @@ func halfPipe(src net.Conn, dst net.Conn,
 
 		if er != nil {
 			if e := generalizeErr(er); e != nil {
-				if isUpload {
-					stats.ClientConnErr = e.Error()
-				} else {
-					stats.CovertConnErr = e.Error()
-				}
+				stats.setConnErr(e.Error(), !isUpload, true)
 			}
 			break
 		}
@@ -323,6 +311,11 @@ func writePROXYHeader(conn net.Conn, originalIPPort string) error {
 type tunnelStats struct {
 	proxyStats *ProxyStats
 
+	// errMu guards CovertConnErr and ClientConnErr: both directions of a tunnel and the
+	// goroutines that close their source connections record errors in them, and the closers
+	// are not joined before the summary is printed.
+	errMu sync.Mutex
+
 	Duration  int64
 	BytesUp   int64
 	BytesDown int64
@@ -348,8 +341,24 @@ type tunnelStats struct {
 }
 
 func (ts *tunnelStats) Print(logger *log.Logger) {
+	ts.errMu.Lock()
 	tunStatsStr, _ := json.Marshal(ts)
+	ts.errMu.Unlock()
 	logger.Printf("proxy closed %s", tunStatsStr)
+}
+
+// setConnErr records an error of the covert (or client) side connection. With overwrite unset
+// an error that was recorded earlier is kept.
+func (ts *tunnelStats) setConnErr(e string, covert bool, overwrite bool) {
+	ts.errMu.Lock()
+	defer ts.errMu.Unlock()
+	field := &ts.ClientConnErr
+	if covert {
+		field = &ts.CovertConnErr
+	}
+	if overwrite || *field == "" {
+		*field = e
+	}
 }
 
 func (ts *tunnelStats) completed(isUpload bool) {
